@@ -242,3 +242,14 @@ package types
 //@   loop 2 invariant (forall k int :: 0 <= k && k <= idx ==> wfTy(typesDefs[k].SessionType, dom(labelledTypesEnv), vals(labelledTypesEnv)))
 //@   loop 3 invariant (forall k int :: 0 <= k && k <= idx ==> contractive(typesDefs[k].SessionType, vals(labelledTypesEnv), emptyStrSet))
 //@   safety C09, C10
+
+// ---- unfolding a name to its definition (termination relies on contractivity and is not proved here)
+
+//@ spec unfolded(t SessionType, D Set[string], V Arr[string]LabelledType) SessionType =
+//@    ite(t == nil, t, ite(!is(t, LabelType), t, ite(D[LabelType(t).Label], unfolded(V[LabelType(t).Label].Type, D, V), nilType())))
+//@ macro nilType() SessionType = SessionType(nil)
+
+//@ contract Unfold
+//@   ensures C10.unfold: result == unfolded(orig, dom(labelledTypesEnv), vals(labelledTypesEnv))
+//@   ensures C10.unfoldNoName: !is(result, LabelType)
+//@   safety C09
